@@ -50,6 +50,28 @@ def gen_cases(tier, seed):
                     nb.append((k, tok + " " + rest.strip(" ")))
                 h["body"] = nb
         sbs = r.random() < 0.45
+        if sbs and r.random() < 0.6:
+            # removed / added runs of similar lines, so that side-by-side pairs them on one row
+            for s_ in d["sections"]:
+                for h in s_["hunks"]:
+                    b = h["body"]
+                    j = 0
+                    while j < len(b):
+                        if b[j][0] == "-":
+                            k = j
+                            while k < len(b) and b[k][0] == "-":
+                                k += 1
+                            m_ = k
+                            while m_ < len(b) and b[m_][0] == "+":
+                                m_ += 1
+                            for a in range(min(k - j, m_ - k)):
+                                tokp = b[k + a][1].split(" ")[0]
+                                words = (b[j + a][1].split(" ")[1:] + ["alpha", "beta", "gamma", "delta"])[:8]
+                                b[j + a] = ("-", b[j + a][1].split(" ")[0] + " " + " ".join(words))
+                                b[k + a] = ("+", tokp + " " + " ".join(words[:-1] + ["omega"]))
+                            j = m_
+                        else:
+                            j += 1
         fmt = 0 if sbs else r.randrange(len(FORMATS))
         width = r.choice([60, 90, 200]) if sbs else 200
         if sbs and r.random() < 0.5:
@@ -58,7 +80,30 @@ def gen_cases(tier, seed):
                 for h in s["hunks"]:
                     h["body"] = [(k, t + (" pad" * r.randint(5, 25) if r.random() < 0.4 else "")) for k, t in h["body"]]
         cases.append({"diff": d, "sbs": sbs, "fmt": fmt, "width": width,
-                      "extra": r.choice([[], [], ["--keep-plus-minus-markers"], ["--line-buffer-size", "2"], ["--wrap-max-lines", "unlimited"], ["--max-line-distance", "1.0"]])})
+                      "extra": r.choice([[], [], ["--keep-plus-minus-markers"], ["--line-buffer-size", "2"], ["--wrap-max-lines", "unlimited"], ["--max-line-distance", "1.0"],
+                                         ["--minus-style", "raw"], ["--plus-style", "raw"], ["--minus-style", "raw", "--plus-style", "raw"]]),
+                      # removed / added lines in git's colour-moved renditions are kept raw
+                      "moved_colours": r.random() < 0.25})
+    # side-by-side rows that pair a removed with an added line (similar short lines, no wrapping), with plain,
+    # raw-styled and colour-moved lines: the left counter must advance on every such row
+    for i in range(40 if tier == "quick" else 600):
+        r = vlib.case_rng(seed, PID, ("paired", i))
+        tok = gdiff.Tok()
+        body = []
+        for _ in range(r.randint(1, 3)):
+            body += [(" ", tok.next() + " ctx")] * 0 + [(" ", tok.next() + " ctx line")]
+            k = r.randint(1, 4)
+            olds = [tok.next() + " alpha beta gamma delta %d" % j for j in range(k)]
+            news = [tok.next() + " alpha beta gamma omega %d" % j for j in range(k)]
+            body += [("-", x) for x in olds] + [("+", x) for x in news]
+        o, n_ = r.choice([1, 7, 98, 12345]), r.choice([1, 11, 4000])
+        na = sum(1 for k_, _ in body if k_ in " -")
+        nb = sum(1 for k_, _ in body if k_ in " +")
+        h = {"header": f"@@ -{o},{na} +{n_},{nb} @@", "old_start": o, "new_start": n_, "frag": "", "body": body, "no_newline": False}
+        d = {"pre": [], "sections": [gdiff.make_section("mod", "p.txt", "p.txt", [h])]}
+        cases.append({"diff": d, "sbs": True, "fmt": 0, "width": 200,
+                      "extra": r.choice([[], ["--minus-style", "raw"], ["--plus-style", "raw"], ["--minus-style", "raw", "--plus-style", "raw"], ["--max-line-distance", "1.0"]]),
+                      "moved_colours": r.random() < 0.4})
     return cases
 
 
@@ -100,6 +145,20 @@ def main(tier, replay=None):
 
     def work(c):
         lines = gdiff.diff_lines(c["diff"])
+        if c.get("moved_colours"):
+            inh = False
+            out_ = []
+            for l in lines:
+                if l.startswith("@@"):
+                    inh = True
+                elif l.startswith(("diff ", "commit ")):
+                    inh = False
+                if inh and l[:1] == "-" and not l.startswith("--- "):
+                    l = "\x1b[1;35m" + l + "\x1b[m"
+                elif inh and l[:1] == "+" and not l.startswith("+++ "):
+                    l = "\x1b[1;36m" + l + "\x1b[m"
+                out_.append(l)
+            lines = out_
         lf, rf, _ = FORMATS[c["fmt"]]
         args = ["--no-gitconfig", "--paging", "never", "--syntax-theme", "none", "--width", str(c["width"]), "--line-numbers",
                 "--line-numbers-left-format", lf, "--line-numbers-right-format", rf] + c["extra"]
